@@ -118,6 +118,8 @@ def structures(rnd, tier):
 
 
 NAMES = ['a', 'b', 'pkg/c', 'pkg/sub/d', 'e']
+# pytype's own extension library is analysed even when importlab classifies it as a System module
+EXT_NAMES = ['pytype_extensions/ext0', 'b', 'pytype_extensions/sub/ext1', 'pkg/sub/d', 'e']
 ADVERSARIAL = ['my mod', 'we$ird', 'co:lon', 'pkg dir/x', 'a$b c:d']
 
 
@@ -149,6 +151,8 @@ def main():
         names = [rnd.choice(ADVERSARIAL) if adversarial and rnd.random() < 0.5 else NAMES[i] for i in range(nmods)]
         if len(set(names)) != len(names):
           names = NAMES[:nmods]
+        if variant == 1:
+          names = EXT_NAMES[:nmods]
         mods = []
         for i in range(nmods):
           target = names[i] + '.py'
